@@ -332,6 +332,36 @@ func (t *v2T) scoreEvent(c *v2C, in string, wdoc *indexedDocument, m map[string]
 		"dist": dist, "ops": ops, "T": T, "K": K, "so": so, "eo": eo, "klen": len(K), "cb": v2Bits(conf)}
 }
 
+// matchQuiet / emitMatch: the call and the emission of its event separated (concurrent callers emit under a
+// mutex of the driver, after the call returned).
+func (t *v2T) matchQuiet(c *v2C, data []byte, api string) Results {
+	cp := append([]byte(nil), data...)
+	if api == "MatchFrom" {
+		r, _ := c.c.MatchFrom(bytes.NewReader(cp))
+		return r
+	}
+	return c.c.Match(cp)
+}
+
+func (t *v2T) emitMatch(c *v2C, data []byte, r Results, memo, api string) {
+	vals := []float64{c.thr, 1.0}
+	for _, m := range r.Matches {
+		vals = append(vals, m.Confidence)
+	}
+	rk := v2Ranks(vals)
+	ms := []map[string]interface{}{}
+	for _, m := range r.Matches {
+		ms = append(ms, map[string]interface{}{"k": m.MatchType + "/" + m.Name + "/" + m.Variant, "t": m.MatchType, "name": m.Name,
+			"r": rk[m.Confidence], "cb": v2Bits(m.Confidence), "sl": m.StartLine, "el": m.EndLine, "st": m.StartTokenIndex, "et": m.EndTokenIndex})
+	}
+	wdoc := c.tokens(data)
+	t.emit(map[string]interface{}{"ev": "match", "c": c.id, "in": t.newIn(), "api": api, "err": "nil",
+		"nlines": bytes.Count(data, []byte("\n")) + 1, "nwords": len(wdoc.Tokens),
+		"thr": rk[c.thr], "one": rk[1.0], "total": r.TotalInputLines, "ms": ms,
+		"unchanged": true, "docs": []int{len(c.c.docs), len(c.c.docs)}, "dict": []int{len(c.c.dict.words), len(c.c.dict.words)},
+		"memo": memo, "scored": false, "lines": []int{}, "hash": v2Hash(data)})
+}
+
 func (t *v2T) pair(a, b *v2Res, kind string, dtok int, lmap []int, nocopy bool, notices []int, extra map[string]interface{}) {
 	if a.Panic != "" || b.Panic != "" {
 		return
